@@ -82,6 +82,14 @@ boost::optional<H5Group> GroupHDF5::findEntityGroup(const nix::Identity &ident) 
         if (ename != iname) {
             return boost::optional<H5Group>();
         }
+
+        // found by name only: a namesake (of another block) is not this entity
+        std::string eid;
+        g->getAttr("entity_id", eid);
+
+        if (eid != iid) {
+            return boost::optional<H5Group>();
+        }
     }
 
     return g;
